@@ -358,6 +358,25 @@ func runC17(c C17Case) *Result {
 				}
 				led.hashes(fmt.Sprintf("block %d GetProofSubset hashes", bi), rh)
 				led.proof(fmt.Sprintf("block %d GetProofSubset proof", bi), rp)
+				// the same request with a position the proof does not cover slipped in after its first entry: it is
+				// refused, and a refused call may not touch its arguments either (the caller drops the stranger and retries)
+				inT := map[uint64]bool{}
+				for _, tg := range targets {
+					inT[tg] = true
+				}
+				for _, sl := range f.Live() {
+					if p := v.SlotPos[sl]; !inT[p] {
+						bad0 := append(append(append([]uint64(nil), w0[:1]...), p), w0[1:]...)
+						bad, gb := guardU64("GetProofSubset(refused).wants", bad0)
+						args = append(args, gb)
+						u.GetProofSubset(bp, delH, bad, v.N)
+						if after("GetProofSubset (a request it has to refuse)", nil) {
+							return res
+						}
+						res.count("refused-subset-requests", 1)
+						break
+					}
+				}
 			}
 		}
 
